@@ -215,6 +215,11 @@ pub fn errno_name(e: i32) -> &'static str {
         libc::EAGAIN => "EAGAIN",
         libc::ETIMEDOUT => "ETIMEDOUT",
         libc::EPIPE => "EPIPE",
+        libc::EOVERFLOW => "EOVERFLOW",
+        libc::ENXIO => "ENXIO",
+        libc::ENODEV => "ENODEV",
+        libc::ESTALE => "ESTALE",
+        libc::EINVAL => "EINVAL",
         _ => "E?",
     }
 }
